@@ -11,6 +11,7 @@ import (
 	"fmt"
 	"net/http"
 	"strings"
+	"sync"
 	"testing"
 
 	"github.com/modelcontextprotocol/go-sdk/mcp"
@@ -103,7 +104,8 @@ func (e SSEEvt) format() string {
 }
 
 func genSSEClient(rt *rapid.T) SSEClientScript {
-	s := SSEClientScript{Mode: rapid.SampledFrom([]string{"sse", "sse", "sse", "json"}).Draw(rt, "mode")}
+	// legacy: the same events on the hanging GET of the 2024-11-05 HTTP+SSE transport (SSEClientTransport)
+	s := SSEClientScript{Mode: rapid.SampledFrom([]string{"sse", "sse", "sse", "json", "legacy", "legacy"}).Draw(rt, "mode")}
 	used := map[string]bool{}
 	s.Call = genMsgModel(rt, []string{"call"})
 	if s.Call.Method == "" {
@@ -111,7 +113,7 @@ func genSSEClient(rt *rapid.T) SSEClientScript {
 	}
 	uniq(used, &s.Call)
 	n := 0
-	if s.Mode == "sse" {
+	if s.Mode == "sse" || s.Mode == "legacy" {
 		n = rapid.IntRange(0, 3).Draw(rt, "extra_events")
 	}
 	for i := 0; i <= n; i++ {
@@ -124,14 +126,15 @@ func genSSEClient(rt *rapid.T) SSEClientScript {
 			uniq(used, &m)
 		}
 		e := SSEEvt{Wire: renderWire(rt, m)}
-		if s.Mode == "sse" {
+		if s.Mode == "sse" || s.Mode == "legacy" {
 			e.Name = rapid.SampledFrom([]string{"", "message"}).Draw(rt, "evt_name")
 			e.ID = rapid.SampledFrom([]string{"", "1", "e_7", "stream/9"}).Draw(rt, "evt_id")
 			e.Retry = rapid.SampledFrom([]string{"", "", "100"}).Draw(rt, "evt_retry")
 			e.NoSpace = rapid.Bool().Draw(rt, "evt_nospace")
 			e.CRLF = rapid.IntRange(0, 3).Draw(rt, "evt_crlf") == 0
 			e.Comment = rapid.IntRange(0, 3).Draw(rt, "evt_comment") == 0
-			e.Decoy = rapid.IntRange(0, 4).Draw(rt, "evt_decoy") == 0
+			// (the old transport has only the endpoint and message events: no events of other types there)
+			e.Decoy = s.Mode == "sse" && rapid.IntRange(0, 4).Draw(rt, "evt_decoy") == 0
 			e.Splits = rapid.SliceOfN(rapid.IntRange(0, 1000), 0, 3).Draw(rt, "evt_splits")
 		}
 		s.Events = append(s.Events, e)
@@ -199,7 +202,53 @@ func runSSEClientInner(s SSEClientScript, res *vt.Result) {
 	}
 	tr := &memhttp.Transport{Handler: handler, Chunks: readSizes}
 	ctx := context.Background()
-	conn, err := (&mcp.StreamableClientTransport{Endpoint: "http://mcp.example/mcp", HTTPClient: tr.Client(), DisableStandaloneSSE: true, MaxRetries: -1}).Connect(ctx)
+	var conn mcp.Connection
+	var err error
+	if s.Mode == "legacy" {
+		// GET: the endpoint event at once, the scripted events once the call has been POSTed; POST: 202.
+		release := make(chan struct{})
+		var once sync.Once
+		tr.Handler = http.HandlerFunc(func(w http.ResponseWriter, r *http.Request) {
+			if r.Method == http.MethodPost {
+				buf := new(strings.Builder)
+				b := make([]byte, 4096)
+				for {
+					n, err := r.Body.Read(b)
+					buf.Write(b[:n])
+					if err != nil {
+						break
+					}
+				}
+				posted = []byte(buf.String())
+				w.WriteHeader(http.StatusAccepted)
+				once.Do(func() { close(release) })
+				return
+			}
+			w.Header().Set("Content-Type", "text/event-stream")
+			w.WriteHeader(http.StatusOK)
+			w.Write([]byte("event: endpoint\ndata: /messages?sessionid=s1\n\n"))
+			w.(http.Flusher).Flush()
+			select {
+			case <-release:
+			case <-r.Context().Done():
+				return
+			}
+			start := 0
+			for i := 1; i < len(text); i++ {
+				if cuts[i] {
+					w.Write([]byte(text[start:i]))
+					w.(http.Flusher).Flush()
+					start = i
+				}
+			}
+			w.Write([]byte(text[start:]))
+			w.(http.Flusher).Flush()
+			<-r.Context().Done() // the stream stays open
+		})
+		conn, err = (&mcp.SSEClientTransport{Endpoint: "http://mcp.example/sse", HTTPClient: tr.Client()}).Connect(ctx)
+	} else {
+		conn, err = (&mcp.StreamableClientTransport{Endpoint: "http://mcp.example/mcp", HTTPClient: tr.Client(), DisableStandaloneSSE: true, MaxRetries: -1}).Connect(ctx)
+	}
 	if err != nil {
 		res.Failf("harness: Connect: %v", err)
 		return
